@@ -19,17 +19,17 @@ add("C01", "X", "model_checking",
     "DESIGN.md 3/C01")
 
 add("C02", "X", "model_checking",
-    "explicit-state model checking (stateright) + fair-suffix ranking executed on the real objects from every unique state; payload-length sweep under a wall-clock watchdog",
+    "explicit-state model checking (stateright) + fair-suffix ranking executed on the real objects from every unique state; payload-length sweep under a wall-clock watchdog; configurations starting after 1022/1023 chunks (wrapped sequence numbers)",
     "From every reachable state of the two-endpoint model (i.e. after every finite fault prefix within the budgets) the fair suffix is executed on the real endpoints and must reach the goal (ready, all vital chunks delivered and acknowledged, nothing queued) within 24 rounds; the deadline invariant is checked on every state; every call runs under a watchdog; every payload length 0..1391 and boundary pairs are lost once and must be recovered.",
     "Trusted: stateright search; the fair scheduler defined in model.rs (rank); watchdog limit 30 s per call; bounds in the evidence.",
     "DESIGN.md 3/C02")
 add("C03", "X", "model_checking",
-    "explicit-state model checking (stateright); per unique state an exhaustive sweep of a foreign-datagram alphabet against a copy of the real endpoint",
-    "On every reachable state with a fixed token (0.6+token, 0.7; client and server), ~500-1500 foreign datagrams (every packet kind x wrong/absent tokens incl. all single-bit flips, compressed forms, truncations and byte substitutions of valid datagrams) are fed to a copy of the real endpoint; events, replies, randomness use and the complete state view must be unchanged. Reserved tokens: all scripted randomness sequences of length <=3.",
+    "explicit-state model checking (stateright); per unique state an exhaustive sweep of a foreign-datagram alphabet against a copy of the real endpoint; exhaustive sweep of structured token differences (650 000 per datagram kind and side; thorough 100 million)",
+    "On every reachable state with a fixed token (0.6+token, 0.7; client and server), ~500-1500 foreign datagrams (every packet kind x wrong/absent tokens incl. all single-bit flips, compressed forms, truncations and byte substitutions of valid datagrams) are fed to a copy of the real endpoint; events, replies, randomness use and the complete state view must be unchanged. Reserved tokens: all scripted randomness sequences of length <=3. Token values: on both sides of an online pair, four datagram kinds with the agreed token XOR d for every d with one or two non-zero bytes, three cancelling bytes, four equal bytes, every rearrangement of the token's bytes (thorough: every three-byte d, every four-byte d that cancels under XOR or addition).",
     "Trusted: independent classifier (wire.rs, from doc/packet*.md + bundled C++ Huffman reference) decides which datagrams carry the agreed token; completeness of verif_view.",
     "DESIGN.md 3/C03")
 add("C04", "E", "exploration",
-    "bounded exhaustive enumeration of API call sequences (depth 3/4 over 58 operations) on a real endpoint + wire monitor inside the explicit-state model",
+    "bounded exhaustive enumeration of API call sequences (depth 3/4 over 66 operations, incl. sends the environment refuses) on a real endpoint x 6 payload contents; families: many small chunks, packets filled to the brim, unlucky random source, 2100-chunk runs across the sequence wrap; wire monitor inside the explicit-state model",
     "All API sequences up to the depth on an online endpoint of each variant, n=1..700 small chunks without flush, and every datagram emitted in the explored two-endpoint model are read back by the library's own reader: <=1400 bytes, no error, no warning, chunk count, chunks bit-identical to what was queued; refusals leave the connection usable; nothing panics.",
     "Trusted: the oracle uses the library's own reader by definition of the property; payload lengths are a boundary set, not every length, in the sequence part (every length is covered by C02's sweep).",
     "DESIGN.md 3/C04")
@@ -41,12 +41,12 @@ add("C05", "E", "exploration",
     "DESIGN.md 3/C05")
 add("C06", "E", "exploration",
     "bounded exhaustive enumeration of attacker datagrams (all short strings, all field/pair corruptions, truncations, extensions, oversize compressed payloads) against every reader entry point",
-    "Every input of the listed finite families goes through Packet::read (all token hints), read_panic_on_decompression, decompress_if_needed, is_initial and ChunksIter of both versions; oracle: returns, no panic, pointer ranges of returned slices inside input or scratch buffer, fields in range, accepted values write and re-read equal.",
+    "Every input of the listed finite families goes through Packet::read (all token hints), read_panic_on_decompression, decompress_if_needed, is_initial and ChunksIter of both versions; oracle: returns, no panic, pointer ranges of returned slices inside input or scratch buffer, fields in range, accepted values (packets, and every chunk the iterator hands out) write and re-read equal; scratch buffers of 1400 / 1401 / 2048 bytes.",
     "Trusted: the families are a bound (strings >3 bytes only through structured corruption); memory safety beyond pointer-range checks is covered by the ASan/Miri runs of C19.",
     "DESIGN.md 3/C06")
 
 add("C20", "X", "model_checking",
-    "explicit-state model checking (stateright BFS) of one real Net against per-address reference connections (differential oracle on every transition)",
+    "explicit-state model checking (stateright BFS) of one real Net against per-address reference connections (differential oracle on every transition); alphabet includes deferred decisions, peer-id counter wrap, refused close datagrams, injected datagrams incl. unusual connect requests",
     "Every reachable state of a real Net (accepting and non-accepting) serving 2-3 addresses with real remote connections, within budgets; after each transition events, outgoing datagrams with destination, needs_tick and the complete per-peer state are compared with per-address reference connections fed the projected history; peer ids distinct (also across the 2^32 wrap).",
     "Trusted: stateright search; the reference is the same Connection code run in isolation (this check is about routing/bookkeeping in Net, not about the connection logic); the application reacts to Connect events immediately.",
     "DESIGN.md 3/C20")
@@ -58,18 +58,18 @@ add("C07", "E", "exploration",
     "DESIGN.md 3/C07")
 add("C08", "E", "exploration",
     "exhaustive enumeration (all 2^32 integers; all short byte strings; thorough: all 2^36 five-byte encodings) against an independent reference codec; bounded exhaustive packer write sequences x capacities",
-    "Encoding decided for every 32-bit integer; decoding decided for every byte string of length <=3 and structured 4/5-byte strings (thorough: every 4-byte string and every 5-byte encoding) against a reference decoder written from doc/int.md, including canonical <=> warning-free; packer/unpacker sequences of <=3/4 fields into every capacity of three backing stores with read-back, truncation and poisoning.",
+    "Encoding decided for every 32-bit integer; decoding decided for every byte string of length <=3 and structured 4/5-byte strings (thorough: every 4-byte string and every 5-byte encoding) against a reference decoder written from doc/int.md, including canonical <=> warning-free; packer/unpacker sequences of <=3/4 fields into every capacity of three backing stores with read-back, truncation and poisoning; strings, length-prefixed data and raw bytes of every length 0..300 and around 8192, 16384, 65536, 2^20.",
     "Trusted: reference codec transcribed from doc/int.md.",
     "DESIGN.md 3/C08")
 
 add("C09", "E", "exploration",
     "exhaustive enumeration of all ordered pairs of snapshots over small key universes; differential against the bundled DDNet C++ reference",
-    "All ordered pairs over universes of 4/5 keys x 3/4 data vectors (fixed-size universes: every pair; variable-size universes: pairs with a size change hit the recorded known finding): delta create -> apply directly, via bytes, via ints, the DDNet reference's delta applied here, serialization equal to the reference builder; limit families at 1024 items / 64 KiB.",
+    "All ordered pairs over universes of 4/5 keys x 3/4 data vectors (fixed-size universes: every pair; variable-size universes: pairs with a size change hit the recorded known finding): delta create -> apply directly, via bytes, via ints, the DDNet reference's delta applied here, serialization equal to the reference builder; limit families at 1024 items / 64 KiB; universes with keys of type 0 and ids on both sides of 0x4000 / 0x8000; insertion orders, dirty target objects.",
     "Trusted: bundled DDNet reference within its own domain (type ids <= 0x3fff); values from a 6-element alphabet; items added in ascending key order.",
     "DESIGN.md 3/C09")
 add("C10", "E", "exploration",
     "bounded exhaustive enumeration of builder scripts (depth 4/5 over 45 operations) with a plain-map reference model and differential routes (bytes / ints / delta)",
-    "Every builder script up to the depth is built, serialized to bytes and ints, read back and compared through items(), item(type,id) over the whole key alphabet (ordinal and UUID types) and crc(); copies produced by read_with_delta likewise; the received copy is recycled and the UUID numbering observed through the next serialization.",
+    "Every builder script up to the depth is built, serialized to bytes and ints, read back and compared through items(), item(type,id) over the whole key alphabet (ordinal and UUID types) and crc(); copies produced by read_with_delta likewise; the received copy is recycled and the UUID numbering observed through the next serialization; value families: ids, words, counts and sizes on both sides of every length boundary of the integer code, full-size snapshots of every encoded width, 200..511 UUID types, through both wire forms.",
     "Trusted: small alphabets (5 types, 3 ids, 3 data vectors); limits by linear families.",
     "DESIGN.md 3/C10")
 
@@ -81,18 +81,18 @@ add("C11", "E", "exploration",
 
 add("C12", "E", "exploration",
     "exhaustive enumeration of message sequences (all sequences of length <= n+2 over parts of the current, an older and a newer tick, n <= 5/6 parts) against a reference receiver; listed permutation families up to 32 parts",
-    "For every part count up to 5 (quick) / 6 (thorough), data lengths on both sides of each 900-byte boundary and 6 tick/base pairs, every sequence - hence every permutation with every duplication pattern, interleaved with older and newer ticks - is fed to a real DeltaReceiver and compared step by step with a reference receiver; zero warnings demanded. For 7..32 parts only listed families are run (labelled so in the evidence).",
+    "For every part count up to 5 (quick) / 6 (thorough), data lengths on both sides of each 900-byte boundary and 6 tick/base pairs, every sequence - hence every permutation with every duplication pattern, interleaved with older and newer ticks - is fed to a real DeltaReceiver and compared step by step with a reference receiver; zero warnings demanded. For 7..32 parts only listed families are run (labelled so in the evidence). For n <= 3 additionally 71 tick/base pairs on both sides of every integer-length boundary and 5 settings with older / newer ticks more than 2^31 away (negative ticks).",
     "Trusted: reference receiver (set of part numbers of the newest tick); messages produced by the real sender delta_chunks.",
     "DESIGN.md 3/C12")
 add("C13", "X", "model_checking",
     "explicit-state model checking (stateright BFS) of a real sender Storage and a real receiver Manager over two lossy channels",
-    "Every reachable state within budgets (ticks, drops, duplications, acknowledgements) of the real sender/receiver pair; worlds contain ordinal items, two UUID types of different sizes and a multi-part snapshot; accepted snapshots are compared with the sender's world through items() and item(type,id); errors must not move the acknowledged tick to that tick; panics are violations (one recorded known finding).",
+    "Every reachable state within budgets (ticks, drops, duplications, acknowledgements) of the real sender/receiver pair; worlds contain ordinal items, two UUID types of different sizes, a multi-part snapshot, an empty and an all-zero item, three worlds with equal checksums and three whose ids / type ids sit on the length boundaries of the integer code; linear histories of 101..250 snapshots; accepted snapshots are compared with the sender's world through items() and item(type,id); errors must not move the acknowledged tick to that tick; panics are violations (one recorded known finding).",
     "Trusted: stateright search; state key = history hash of each real object (over-fine, cannot hide states).",
     "DESIGN.md 3/C13")
 
 add("C15", "E", "exploration",
     "bounded exhaustive enumeration of chunk sequences (raw level) and world histories (typed level), written by the real writers into memory and read back by the real readers",
-    "All raw chunk sequences up to depth 3/4 over ticks on both sides of the inline-delta limit, key frames, payloads with compressed sizes around 29/30 and 255/256, padded messages; every payload size family incl. the largest representable; all header string lengths; all typed world histories up to depth 4/5 over 5 object sets (ordinal + two UUID-typed sizes) x tick steps {+1,+250,+251} x non-increasing ticks.",
+    "All raw chunk sequences up to depth 3/4 over ticks on both sides of the inline-delta limit, key frames, payloads with compressed sizes around 29/30 and 255/256, padded messages; every payload size family incl. the largest representable; all header string lengths; all typed world histories up to depth 4/5 over 5 object sets (ordinal + two UUID-typed sizes) x tick steps {+1,+250,+251} x non-increasing ticks; every raw tick gap 1..1100 and around every power of two; every pair of absolute ticks out of 31 values from i32::MIN to i32::MAX.",
     "Trusted: round trip through the library's own reader is the property; one recorded known finding (UUID type number reuse across consecutive snapshots panics in Delta::create).",
     "DESIGN.md 3/C15")
 add("C16", "E", "exploration",
@@ -102,7 +102,7 @@ add("C16", "E", "exploration",
     "DESIGN.md 3/C16")
 add("C17", "E", "exploration",
     "bounded exhaustive enumeration of server histories x read fragmentations (schedules of read sizes chosen by the harness through the cfg hook)",
-    "All valid histories up to depth 4/5 over an 18-message alphabet, each decoded under every 1/2-piece fragmentation, byte-by-byte, zero-length reads at every position and header cuts; items must be identical and match a reference decoding (nesting, strictly increasing ticks equal to the doc pseudo-code, running sums); truncations and byte substitutions give value-or-error independent of fragmentation; long streams around the 8192-byte buffer boundary.",
+    "All valid histories up to depth 4/5 over a 20-message alphabet (tick skips up to i32::MAX), each decoded under every 1/2-piece fragmentation, byte-by-byte, zero-length reads at every position and header cuts; items must be identical and match a reference decoding (nesting, strictly increasing ticks equal to the doc pseudo-code, running sums); truncations and byte substitutions give value-or-error independent of fragmentation; long streams around the 8192-byte buffer boundary; histories the reference rejects are fed as byte streams too (items or error, no panic, fragmentation-independent).",
     "Trusted: independent encoder and tick/position reference from doc/teehistorian.md; cfg(libtw2_verif) re-export of the incremental reader.",
     "DESIGN.md 3/C17")
 
@@ -118,7 +118,7 @@ add("C18", "E", "exploration",
     "DESIGN.md 3/C18")
 add("C19", "E", "exploration",
     "bounded exhaustive enumeration of operation sequences x backing stores against a Vec-with-capacity model; Miri and AddressSanitizer as monitors on the enumerated executions",
-    "All sequences of <= 3/4 operations (writes, extends, reader fills, nested views, early exit) x take/drop on 83 backing-store configurations (Vec, ArrayVec, slice, slice reference, capped views with every cap) compared with a reference model incl. canaries; the same enumerator under Miri; thorough: this and the C05/C06/C07/C11/C16/C17 enumerators in an AddressSanitizer build.",
+    "All sequences of <= 3/4 operations (writes, extends, reader fills, nested views, early exit) x take/drop on 83 backing-store configurations (Vec, ArrayVec, slice, slice reference, capped views with every cap) compared with a reference model incl. canaries; a second family of long writes (1..127 bytes, depth <= 3) on 53 stores of 63..200 bytes; the same enumerator under Miri; thorough: this and the C05/C06/C07/C11/C16/C17 enumerators in an AddressSanitizer build.",
     "Trusted: Miri (stacked borrows disabled: the property is about out-of-bounds/use-after-free, not the aliasing model) and ASan as run-time monitors; C/C++ reference libraries and std are not instrumented.",
     "DESIGN.md 3/C19")
 
